@@ -113,7 +113,7 @@ class RawLinkLayer(LinkLayer):
             try:
                 m = self.sock.recv(1500)
                 try:
-                    if m[0:6] == self.mac_address:
+                    if m[0:6] == self.mac_address and m[6:12] != self.mac_address:
                         self.receive_callback(m[14:])
                     elif (
                         m[0:6] == b"\xff\xff\xff\xff\xff\xff"
